@@ -420,6 +420,9 @@ func randomItem(r *rng, optPct int) (reflect.Type, string, reflect.Value) {
 		params = "explicit,choice"
 	case 5, 6:
 		t = genType(r, 0)
+		for k := 0; k < 20 && untaggedChoiceMember(t, 0); k++ {
+			t = genType(r, 0)
+		}
 		params = r.pickStr("", "", "set", "tagNum:3", "tagNum:40,explicit")
 	case 7:
 		t = r.pickType(asn.OctetStringType, asn.UTF8StringType, asn.BitStringType, reflect.TypeOf(int64(0)))
@@ -434,6 +437,44 @@ func randomItem(r *rng, optPct int) (reflect.Type, string, reflect.Value) {
 	v := reflect.New(t).Elem()
 	fillValue(r, v, 0, r.chance(15), optPct)
 	return t, params, v
+}
+
+// untaggedChoiceMember: a SEQUENCE member without tagNum whose type is a CHOICE behind Value wrappers / pointers.  The
+// decoder cannot match such a member (matchMember has no universal tag to look for), so those types marshal but do not
+// unmarshal — whatever the history; section 3 of genBer meets them, the history and concurrency regions leave them out.
+func untaggedChoiceMember(t reflect.Type, depth int) bool {
+	if depth > 12 {
+		return false
+	}
+	switch t.Kind() {
+	case reflect.Ptr, reflect.Slice:
+		return untaggedChoiceMember(t.Elem(), depth+1)
+	case reflect.Struct:
+		if t == asn.BitStringType || t.NumField() == 0 {
+			return false
+		}
+		first := t.Field(0).Name
+		for i := 0; i < t.NumField(); i++ {
+			ft := t.Field(i).Type
+			if first != "Value" && first != "List" && first != "Present" && !strings.Contains(t.Field(i).Tag.Get("ber"), "tagNum:") {
+				u := ft
+				for u.Kind() == reflect.Ptr || (u.Kind() == reflect.Struct && u.NumField() > 0 && (u.Field(0).Name == "Value" || u.Field(0).Name == "List")) {
+					if u.Kind() == reflect.Ptr {
+						u = u.Elem()
+					} else {
+						u = u.Field(0).Type
+					}
+				}
+				if isChoiceStruct(u) {
+					return true
+				}
+			}
+			if untaggedChoiceMember(ft, depth+1) {
+				return true
+			}
+		}
+	}
+	return false
 }
 
 func genBerHistories(o genOpts, r *rng, w *bufio.Writer) {
